@@ -107,6 +107,12 @@ CHECKS = {
         note="True rewards are those of the SimMDP tables; set-valued reference where a done step of a stochastic transition hides its successor.",
         ref="5 (C19)",
     ),
+    "C20": dict(
+        oracle="invariants at every reset event (explicit and automatic) and at every control step of G1 episodes; long phase-clock runs; foot-height grid",
+        text="For the three Unitree G1 tasks, vmapped initial states under many keys and auto-reset rollouts under a short time limit are checked at every reset event (randomised fields within range, every other model leaf bit-identical to nominal, command/frequency ranges, kinematics vs mjx.forward) and at every control step (phase interval, half-cycle offset, advance per control step); the phase clock alone runs for up to 1e6 ticks. Exploration.",
+        note="Quick tier uses default constructor ranges (compile cost ~2 min per task); thorough adds a constructor swarm.",
+        ref="5 (C20)",
+    ),
 }
 
 
